@@ -174,7 +174,14 @@ def run_scenario(name: str, counters: bool, full_step=None) -> dict:
     try:
         path = builder(d)
         init = scenarios.INIT_FUNCTIONS.get(name)
-        rp = load(path, init_functions=init() if init else None)
+        # "whichever process runs it": the working directory the process is started in is, like the hash seed and the time zone, a
+        # property of the process; every third schedule is launched from a directory that holds stray files named like the packaged
+        # default assets
+        from .scen import launch_dir_with_stray_assets
+
+        hs = int(os.environ.get("PYTHONHASHSEED", "0") or 0)
+        cwd = launch_dir_with_stray_assets(d) if hs % 3 == 1 else None
+        rp = load(path, init_functions=init() if init else None, cwd=cwd)
         sig = order_signature(rp)
         rec = Recorder(keep_states=full_step is not None)
         rp.e.reporter.add_handler(rec)
